@@ -311,3 +311,62 @@ package objecttree
 //@   requires !keysRefreshed
 //@   ensures [encrypted_means_keyed] err == nil && content.ShouldBeEncrypted ==> !cnt.Unencrypted && cnt.ReadKey != nil && cnt.ReadKey == ot.currentReadKey && keysRefreshed && cnt.ReadKeyId == ot.aclList.AclState().CurrentReadKeyId()
 //@   ensures [flag_follows_request] err == nil ==> cnt.Unencrypted == !content.ShouldBeEncrypted && cnt.Content == content.Data
+
+// ---------------------------------------------------------------------------------------------
+// C01 (safety half): a change is attached only when every parent it names and the snapshot it cites
+// are already attached - in the direct path (add) and for every change released from the wait list.
+//@ ghost attachCalls Int stable
+//@ func (*Tree).canAttachOrRemove
+//@   requires t != nil
+//@   assumes addToWait ==> t.waitList != nil
+//@   modifies kinds map:map[string][]string string
+//@   ensures [attach_needs_all_parents] attach ==> c != nil && (forall k int :: 0 <= k && k < len(c.PreviousIds) ==> (c.PreviousIds[k] in t.attached))
+//@   ensures [attach_needs_snapshot]    attach ==> (c.SnapshotId in t.attached)
+//@   ensures [verdicts_exclusive]       !(attach && remove)
+//@   loop 0:
+//@     invariant -1 <= rangeindex && rangeindex < len(c.PreviousIds) && c != nil
+//@     invariant attach ==> (forall k int :: 0 <= k && k <= rangeindex ==> (c.PreviousIds[k] in t.attached))
+//@ func (*Tree).attach
+//@   requires [ancestors_attached] t != nil && c != nil && (forall k int :: 0 <= k && k < len(c.PreviousIds) ==> (c.PreviousIds[k] in t.attached)) && (c.SnapshotId in t.attached)
+//@   sets attachCalls = attachCalls + 1
+//@ func (*Tree).add
+//@   requires t != nil
+//@   assumes t.root != nil ==> t.waitList != nil && t.unAttached != nil
+
+// ---------------------------------------------------------------------------------------------
+// C06: order ids are filled in without renumbering: updateHeads writes an order id only into changes
+// that had none, so the relative order already handed to consumers (and stored) never changes.
+//@ package github.com/anyproto/lexid
+//@ func (*LexId).NextBefore
+//@   modifies nothing
+//@ func (*LexId).Next
+//@   modifies nothing
+//@ package sort
+//@ func Strings
+//@   modifies object arg0 kinds string
+//@ package github.com/anyproto/any-sync/commonspace/object/tree/objecttree
+//@ func newIterator
+//@   modifies nothing
+//@   ensures result != nil
+//@ func freeIterator
+//@   modifies kinds none
+//@ func (*iterator).makeIterBuffer
+//@   trusted
+//@   modifies fields Change.visited iterator.resBuf iterator.stack
+//@   modifies kinds ptr
+//@   ensures forall k int :: 0 <= k && k < len(result) ==> result[k] != nil && !fresh(result[k])
+//@ func (*Tree).updateHeads
+//@   allow panic
+//@   requires t != nil
+//@   loop 0:
+//@     invariant [existing_order_ids_kept] forall k int, c *Change :: 0 <= k && k < len(buf) && c == buf[k] && atentry(c.OrderId) != "" ==> c.OrderId == atentry(c.OrderId)
+//@     invariant [gap_is_unnumbered] forall k int, c *Change :: idx < k && k < lastOrderIdx && 0 <= k && k < len(buf) && c == buf[k] ==> atentry(c.OrderId) == ""
+//@     invariant -1 <= idx && idx < len(buf) && (len(buf) == 0 || (0 <= lastOrderIdx && lastOrderIdx < len(buf))) && idx <= lastOrderIdx
+//@   loop 1:
+//@     invariant [existing_order_ids_kept] forall k int, c *Change :: 0 <= k && k < len(buf) && c == buf[k] && atentry(c.OrderId) != "" ==> c.OrderId == atentry(c.OrderId)
+//@     invariant [gap_is_unnumbered] forall k int, c *Change :: idx < k && k < lastOrderIdx && 0 <= k && k < len(buf) && c == buf[k] ==> atentry(c.OrderId) == ""
+//@     invariant idx <= i && i < lastOrderIdx && 0 <= idx && lastOrderIdx < len(buf)
+//@   loop 2:
+//@     invariant [existing_order_ids_kept] forall k int, c *Change :: 0 <= k && k < len(buf) && c == buf[k] && atentry(c.OrderId) != "" ==> c.OrderId == atentry(c.OrderId)
+//@     invariant [gap_is_unnumbered] forall k int, c *Change :: 0 <= k && k < lastOrderIdx && k < len(buf) && c == buf[k] ==> atentry(c.OrderId) == ""
+//@     invariant -1 <= i && i < lastOrderIdx && lastOrderIdx < len(buf)
